@@ -12,6 +12,10 @@ package main
 //   C10-save-omits-compressed-flag       snapshot header without format bit    -> snap/tool/compressed-flag-mismatch, snap/tool/record-mismatch-after-reload
 //   C10-p2sh-hash-shifted                CompressScript copies scr[3:23]       -> recC/script-changed/p2sh
 //   C10-plain-index-width-one            SerializeU sizes an index >= 253 as 1 byte -> recU/panic/SerializeU:...
+// Seeded changes (/verif/seeded): C10-c (SerializeU sizes the out count before OR-ing the coinbase bit: 126 outputs + coinbase)
+//   -> recU/panic/SerializeU:..., recU/panic/NewUtxoRecOwnU:..., oneU/panic/OneUtxoRecU:..., snap/plain/process-died;
+//   C10-d (aborted save published when the abort arrives on the full writer queue) -> snap/abort/hurry-queue-full/aborted-save-published-incomplete-snapshot,
+//   snap/abort/hurry-after-pacing-queue-full/aborted-save-published-incomplete-snapshot (abort.go)
 
 import (
 	"bytes"
